@@ -109,6 +109,9 @@ where
         Roots::Four(r)  => SmallVec::from_buf(r)
     };
 
+    #[cfg(flo_curves_verif)]
+    verif_roots::record(p, &roots);
+
     let mut result = smallvec![];
     for t in roots.into_iter() {
         // The solvers are approximate: refine the root against the polynomial
@@ -178,4 +181,20 @@ where
     ray_intersections.retain(|(_t, s, _pos)| (&mut 0.0..=&mut 1.0).contains(&s));
 
     ray_intersections
+}
+
+///
+/// (verification hook, only with `--cfg flo_curves_verif`) records the polynomial and the raw solver roots of the last call
+/// to `curve_intersects_ray` on this thread
+///
+#[cfg(flo_curves_verif)]
+pub mod verif_roots {
+    use std::cell::RefCell;
+
+    thread_local! { static LAST: RefCell<Option<((f64, f64, f64, f64), Vec<f64>)>> = RefCell::new(None); }
+
+    /// Returns (and clears) the polynomial coefficients and solver roots recorded by the last call on this thread
+    pub fn take() -> Option<((f64, f64, f64, f64), Vec<f64>)> { LAST.with(|l| l.borrow_mut().take()) }
+
+    pub (crate) fn record(p: (f64, f64, f64, f64), roots: &[f64]) { LAST.with(|l| *l.borrow_mut() = Some((p, roots.to_vec()))); }
 }
